@@ -6,6 +6,7 @@
 -/
 import HL.Lemmas.Hover
 import HL.Lemmas.HoverDec
+import HL.Lemmas.PayeeRange
 namespace HL.Props.C20Hover
 open HL HL.Ast HL.Hover HL.HoverSpec HL.Lemmas.Hover HL.Lemmas.HoverDec
 
@@ -244,15 +245,15 @@ theorem findInPostings_amount {ps : List Posting} {p : LspPos} {rng : Rng} {a : 
         · obtain ⟨q, hq, r⟩ := ih h
           exact ⟨q, List.mem_cons_of_mem _ hq, r⟩
 
-theorem payeeElement_not_amount {tx : Transaction} {p : LspPos} {rng : Rng} {a : Amount} {c : Option Cost} :
-    payeeElement tx p ≠ some (.amount rng a c) := by
+theorem payeeElement_not_amount {lns : List HL.Text.Txt} {tx : Transaction} {p : LspPos} {rng : Rng} {a : Amount}
+    {c : Option Cost} : payeeElement lns tx p ≠ some (.amount rng a c) := by
   unfold payeeElement
   split
   · split <;> simp
   · simp
 
-theorem findElement_amount {txs : List Transaction} {p : LspPos} {rng : Rng} {a : Amount} {c : Option Cost}
-    (h : findElement txs p = some (.amount rng a c)) :
+theorem findElement_amount {lns : List HL.Text.Txt} {txs : List Transaction} {p : LspPos} {rng : Rng} {a : Amount}
+    {c : Option Cost} (h : findElement lns txs p = some (.amount rng a c)) :
     ∃ tx ∈ txs, ∃ po ∈ tx.postings, po.amount = some a ∧ po.cost = c ∧ rng = a.range ∧
       positionInRange p a.range = true := by
   induction txs with
@@ -280,7 +281,7 @@ theorem findElement_amount {txs : List Transaction} {p : LspPos} {rng : Rng} {a 
     a posting of the requesting document whose amount range contains the cursor. -/
 theorem amount_hover_exact (ws perUri : Option Resolved) (doc : Journal) (lns : List HL.Text.Txt)
     (p : LspPos) (rng : Rng) (a : Amount) (c : Option Cost)
-    (h : findElement doc.transactions (runePos lns p) = some (.amount rng a c)) :
+    (h : findElement lns doc.transactions (runePos lns p) = some (.amount rng a c)) :
     (hover ws perUri doc lns p).map (·.figures) =
       some (.amount a.quantity a.commodity.symbol
         (c.map fun c => (c.isTotal, c.amount.quantity, c.amount.commodity.symbol))) ∧
@@ -330,8 +331,8 @@ theorem findInPostings_account {ps : List Posting} {p : LspPos} {rng : Rng} {acc
         · obtain ⟨q, hq, r⟩ := ih h
           exact ⟨q, List.mem_cons_of_mem _ hq, r⟩
 
-theorem findElement_account {txs : List Transaction} {p : LspPos} {rng : Rng} {acc : Account}
-    (h : findElement txs p = some (.account rng acc)) :
+theorem findElement_account {lns : List HL.Text.Txt} {txs : List Transaction} {p : LspPos} {rng : Rng} {acc : Account}
+    (h : findElement lns txs p = some (.account rng acc)) :
     ∃ tx ∈ txs, ∃ po ∈ tx.postings, po.account = acc := by
   induction txs with
   | nil => simp [findElement] at h
@@ -363,7 +364,7 @@ theorem findElement_account {txs : List Transaction} {p : LspPos} {rng : Rng} {a
     the hypothesis for the repaired server.) -/
 theorem current_file_counted_partial (ws perUri : Option Resolved) (doc : Journal)
     (lns : List HL.Text.Txt) (p : LspPos) (rng : Rng) (acc : Account)
-    (h : findElement doc.transactions (runePos lns p) = some (.account rng acc))
+    (h : findElement lns doc.transactions (runePos lns p) = some (.account rng acc))
     (hsub : ∀ tx ∈ doc.transactions, tx ∈ hoverTransactions ws perUri doc) :
     (hover ws perUri doc lns p).map (·.figures) =
       some (.account acc.name
@@ -436,7 +437,7 @@ theorem current_file_in_scope (v : Option WsView) (perUri : Option Resolved) (pa
     includes the posting under the cursor. -/
 theorem current_file_counted (v : Option WsView) (perUri : Option Resolved) (path : Bytes)
     (doc : Journal) (lns : List HL.Text.Txt) (p : LspPos) (rng : Rng) (acc : Account)
-    (h : findElement doc.transactions (runePos lns p) = some (.account rng acc))
+    (h : findElement lns doc.transactions (runePos lns p) = some (.account rng acc))
     (hs : InSync v perUri path doc) :
     let txs := hoverTransactions (workspaceResolvedFor v path) perUri doc
     (hoverAt v perUri path doc lns p).map (·.figures) =
@@ -446,41 +447,45 @@ theorem current_file_counted (v : Option WsView) (perUri : Option Resolved) (pat
   current_file_counted_partial (workspaceResolvedFor v path) perUri doc lns p rng acc h
     (current_file_in_scope v perUri path doc hs)
 
-/-- The column where `estimatePayeeRange` expects the payee. -/
-def payeeStart (tx : Transaction) : Nat :=
-  tx.date.range.stop.col + 1 + (if tx.status != .none then 2 else 0)
-
-/-- Guard of the known finding payee-range-estimated, positively: if the payee really starts
-    one column after the date (three after a status mark), every cursor from its first
-    character to just past its last one, on the date's line, finds the payee, and Hover shows
-    the number of transactions with that payee.  `p` is the cursor in runes (`runePos lns` of
-    the request's position `p0`); the payee's length counts runes too. -/
-theorem payee_found_partial (ws perUri : Option Resolved) (doc : Journal) (lns : List HL.Text.Txt)
+open HL.Spec.HeaderG in
+/-- **payee_found** (no guard on the shape of the header; repo_patches/fix-payee-range.diff).
+    The header line of the transaction is any text up to the end of the date (`pre`) followed by
+    a header of the grammar (HL/Spec/HeaderG.lean: optional secondary date, status mark and
+    code, any runs of blanks and tabs before the payee, `| note`, comment; `cr`: what follows
+    the printed header — nothing or the CR of a CRLF line end).  Every cursor from the first
+    character of the payee to just past its last one, on that line, finds the payee, and Hover
+    shows the number of transactions with that payee.  `p` is the cursor in runes (`runePos lns`
+    of the request's position `p0`); `hdate`: the cursor is not on the date (it follows from the
+    tree when something stands between the date and the payee). -/
+theorem payee_found (ws perUri : Option Resolved) (doc : Journal) (lns : List HL.Text.Txt)
     (tx : Transaction) (rest : List Transaction) (p0 p : LspPos) (hp : runePos lns p0 = p)
     (hdoc : doc.transactions = tx :: rest)
     (hne : payeeOrDescription tx ≠ [])
+    (pre : HL.Text.Txt) (h : Header) (cr : HL.Text.Txt)
+    (h1 : 1 ≤ tx.date.range.start.line) (h2 : 1 ≤ tx.date.range.stop.col)
+    (hl : lns[tx.date.range.start.line - 1]? = some (pre ++ (h.print ++ cr)))
+    (hpre : pre.length = tx.date.range.stop.col - 1) (hw : h.wf = true)
+    (hlen : h.payee.length = runeLen (payeeOrDescription tx))
     (hdate : positionInRange p tx.date.range = false)
     (hline : p.line + 1 = tx.date.range.start.line)
-    (hlo : payeeStart tx ≤ p.char + 1)
-    (hhi : p.char + 1 ≤ payeeStart tx + runeLen (payeeOrDescription tx)) :
+    (hlo : pre.length + h.lead.length ≤ p.char)
+    (hhi : p.char ≤ pre.length + h.lead.length + h.payee.length) :
     (hover ws perUri doc lns p0).map (·.figures) =
       some (.payee (payeeOrDescription tx)
         (countPayee (payeeOrDescription tx) (hoverTransactions ws perUri doc))) := by
-  have hin : positionInRange p (estimatePayeeRange tx (payeeOrDescription tx)) = true := by
-    unfold payeeStart at hlo hhi
-    have h1 : ¬ (p.line + 1 < tx.date.range.start.line ∨ p.line + 1 > tx.date.range.start.line) := by omega
-    cases hs : (tx.status != Status.none)
-    · simp only [hs, Bool.false_eq_true, if_false] at hlo hhi
-      have h2 : ¬ (p.char + 1 < tx.date.range.stop.col + 1) := by omega
-      have h3 : ¬ (p.char + 1 > tx.date.range.stop.col + 1 + runeLen (payeeOrDescription tx)) := by omega
-      simp [positionInRange, estimatePayeeRange, hs, h1, h2, h3]
-    · simp only [hs, if_true] at hlo hhi
-      have h2 : ¬ (p.char + 1 < tx.date.range.stop.col + 1 + 2) := by omega
-      have h3 : ¬ (p.char + 1 > tx.date.range.stop.col + 1 + 2 + runeLen (payeeOrDescription tx)) := by omega
-      simp [positionInRange, estimatePayeeRange, hs, h1, h2, h3]
+  have hcol : HL.PayeeRange.payeeStart lns tx.date.range.start.line tx.date.range.stop.col =
+      some (tx.date.range.stop.col + h.lead.length) := by
+    have h0 : tx.date.range.start.line ≠ 0 := by omega
+    simp only [HL.PayeeRange.payeeStart, h0, if_false, hl, Header.print, List.append_assoc]
+    exact HL.Lemmas.PayeeRange.descriptionColumn_header pre h (h.tail ++ cr) _ hw h2 hpre
+  have hin : positionInRange p (payeeRange lns tx (payeeOrDescription tx)) = true := by
+    have e1 : ¬ (p.line + 1 < tx.date.range.start.line ∨ p.line + 1 > tx.date.range.start.line) := by omega
+    have e2 : ¬ (p.char + 1 < tx.date.range.stop.col + h.lead.length) := by omega
+    have e3 : ¬ (p.char + 1 > tx.date.range.stop.col + h.lead.length + runeLen (payeeOrDescription tx)) := by omega
+    simp [positionInRange, payeeRange, hcol, e1, e2, e3]
   have hb : (payeeOrDescription tx != []) = true := by simpa using hne
-  have hf : findElement doc.transactions p =
-      some (.payee (estimatePayeeRange tx (payeeOrDescription tx)) (payeeOrDescription tx) tx) := by
+  have hf : findElement lns doc.transactions p =
+      some (.payee (payeeRange lns tx (payeeOrDescription tx)) (payeeOrDescription tx) tx) := by
     rw [hdoc]
     simp [findElement, findInTransaction, hdate, payeeElement, hb, hin]
   simp [hover, hoverR, hp, hf, buildFigures]
@@ -596,20 +601,42 @@ end Cex
 
 /-- The hypotheses of `amount_hover_exact` and `current_file_counted_partial` are satisfiable:
     a document with one posting `x:y  5 USD` on line 2, cursor on the amount / on the account. -/
-example : ∃ rng a c, findElement (Cex.journal [Cex.tx 1 [Cex.posting Cex.xy 2 (some 5)]]).transactions ⟨1, 8⟩
+example : ∃ rng a c, findElement [] (Cex.journal [Cex.tx 1 [Cex.posting Cex.xy 2 (some 5)]]).transactions ⟨1, 8⟩
     = some (.amount rng a c) := ⟨_, _, _, rfl⟩
-example : ∃ rng acc, findElement (Cex.journal [Cex.tx 1 [Cex.posting Cex.xy 2 (some 5)]]).transactions ⟨1, 3⟩
+example : ∃ rng acc, findElement [] (Cex.journal [Cex.tx 1 [Cex.posting Cex.xy 2 (some 5)]]).transactions ⟨1, 3⟩
     = some (.account rng acc) ∧
     ∀ tx ∈ (Cex.journal [Cex.tx 1 [Cex.posting Cex.xy 2 (some 5)]]).transactions,
       tx ∈ hoverTransactions none none (Cex.journal [Cex.tx 1 [Cex.posting Cex.xy 2 (some 5)]]) :=
   ⟨_, _, rfl, fun _ h => h⟩
 
-/-- The hypotheses of `payee_found_partial` are satisfiable (`2024-01-15 Shop`, cursor on `h`). -/
-example : ∃ tx : Transaction, ∃ p : LspPos, payeeOrDescription tx ≠ [] ∧
+/-- The hypotheses of `payee_found` are satisfiable: `2024-01-15=2024-01-16 ! (12)` + TAB +
+    `😀 Shop | n ; c` on a CRLF line, cursor (runes) on `S`; and the canonical `2024-01-15 Shop`,
+    cursor on `h`. -/
+example :
+    let tx : Transaction := { Cex.tx 1 [] with code := [49, 50], payee := "😀 Shop".toUTF8.toList }
+    let h : HL.Spec.HeaderG.Header := {
+      date2 := some ([], [], "2024-01-16".toList), status := some (" ".toList, '!'),
+      code := some (" ".toList, "12".toList), gap := "\t".toList, payee := "😀 Shop".toList,
+      note := some (" ".toList, " ".toList, "n".toList), comment := some (" ".toList, " c".toList) }
+    let pre := "2024-01-15".toList
+    let lns : List HL.Text.Txt := [pre ++ (h.print ++ ['\r']), []]
+    let p : LspPos := ⟨0, 31⟩
+    payeeOrDescription tx ≠ [] ∧ lns[tx.date.range.start.line - 1]? = some (pre ++ (h.print ++ ['\r'])) ∧
+    pre.length = tx.date.range.stop.col - 1 ∧ h.wf = true ∧ h.payee.length = runeLen (payeeOrDescription tx) ∧
     positionInRange p tx.date.range = false ∧ p.line + 1 = tx.date.range.start.line ∧
-    payeeStart tx ≤ p.char + 1 ∧ p.char + 1 ≤ payeeStart tx + runeLen (payeeOrDescription tx) :=
-  ⟨{ Cex.tx 1 [] with description := [83, 104, 111, 112] }, ⟨0, 12⟩, by decide⟩
+    pre.length + h.lead.length ≤ p.char ∧ p.char ≤ pre.length + h.lead.length + h.payee.length ∧
+    (findElement lns [tx] p).map Element.rng = some ⟨⟨1, 30, 0⟩, ⟨1, 36, 0⟩⟩ := by
+  decide +kernel
 
+example :
+    let tx : Transaction := { Cex.tx 1 [] with description := [83, 104, 111, 112] }
+    let h : HL.Spec.HeaderG.Header := { gap := " ".toList, payee := "Shop".toList }
+    let pre := "2024-01-15".toList
+    let p : LspPos := ⟨0, 12⟩
+    h.wf = true ∧ h.payee.length = runeLen (payeeOrDescription tx) ∧
+    positionInRange p tx.date.range = false ∧
+    pre.length + h.lead.length ≤ p.char ∧ p.char ≤ pre.length + h.lead.length + h.payee.length := by
+  decide +kernel
 
 open Cex in
 /-- A `FileOrder` that lists a file twice doubles that file's figures: 2 postings and 10 USD are
@@ -657,7 +684,8 @@ example :
     let w : WsView := ⟨⟨some fileB, [], []⟩, b⟩
     let doc := journal [tx 1 [posting op 2 (some 3)]]
     InSync (some w) (some ⟨some doc, [], []⟩) [111] doc ∧
-    ∃ rng acc, findElement doc.transactions (runePos ["2024-01-15 x".toList, "  o:p  3 USD".toList, []] ⟨1, 2⟩) = some (.account rng acc) := by
+    ∃ rng acc, findElement ["2024-01-15 x".toList, "  o:p  3 USD".toList, []] doc.transactions
+      (runePos ["2024-01-15 x".toList, "  o:p  3 USD".toList, []] ⟨1, 2⟩) = some (.account rng acc) := by
   refine ⟨⟨?_, ?_, ?_⟩, _, _, rfl⟩
   · intro w hw hp; cases hw; exact absurd hp (by decide)
   · intro w hw _ hl; cases hw; exact absurd hl (by decide)
@@ -677,12 +705,21 @@ theorem unsaved_include_not_seen_counterexample :
   decide
 
 open Cex in
-/-- `2024-01-15 (12) Shop`: the payee range is estimated as "one column after the date", so a
-    cursor on `Shop` (columns 17..20) finds nothing while a cursor on the code finds the payee. -/
-theorem payee_range_counterexample :
+/-- **pinned_payee_range_counterexample** (before repo_patches/fix-payee-range.diff).
+    `2024-01-15 (12) Shop`: the payee range was estimated as "one column after the date" — what
+    the model still computes when the mapper has no text (`lns = []`) — so a cursor on `Shop`
+    (characters 16..20) found nothing while a cursor on the code found the payee.  With the text
+    of the header line the payee is found on `Shop`, with its exact range, and the code is no
+    payee. -/
+theorem pinned_payee_range_counterexample :
     let t : Transaction := { tx 1 [] with code := [49, 50], description := [83, 104, 111, 112] }
-    findElement [t] ⟨0, 16⟩ = none ∧ findElement [t] ⟨0, 18⟩ = none ∧
-    (findElement [t] ⟨0, 12⟩).map Element.rng = some ⟨⟨1, 12, 0⟩, ⟨1, 16, 0⟩⟩ := by
+    let lns : List HL.Text.Txt := ["2024-01-15 (12) Shop".toList, []]
+    findElement [] [t] ⟨0, 16⟩ = none ∧ findElement [] [t] ⟨0, 18⟩ = none ∧
+    (findElement [] [t] ⟨0, 12⟩).map Element.rng = some ⟨⟨1, 12, 0⟩, ⟨1, 16, 0⟩⟩ ∧
+    (findElement lns [t] ⟨0, 16⟩).map Element.rng = some ⟨⟨1, 17, 0⟩, ⟨1, 21, 0⟩⟩ ∧
+    (findElement lns [t] ⟨0, 18⟩).map Element.rng = some ⟨⟨1, 17, 0⟩, ⟨1, 21, 0⟩⟩ ∧
+    (findElement lns [t] ⟨0, 20⟩).map Element.rng = some ⟨⟨1, 17, 0⟩, ⟨1, 21, 0⟩⟩ ∧
+    findElement lns [t] ⟨0, 12⟩ = none ∧ findElement lns [t] ⟨0, 15⟩ = none := by
   decide
 
 open Cex in
@@ -713,7 +750,7 @@ theorem hover_aggregates_exact_partial : type_of% @HL.Props.C20Hover.hover_aggre
 theorem hover_uses_whole_tree : type_of% @HL.Props.C20Hover.hover_uses_whole_tree := @HL.Props.C20Hover.hover_uses_whole_tree
 theorem hover_without_workspace : type_of% @HL.Props.C20Hover.hover_without_workspace := @HL.Props.C20Hover.hover_without_workspace
 theorem hover_current_file_counted_partial : type_of% @HL.Props.C20Hover.current_file_counted_partial := @HL.Props.C20Hover.current_file_counted_partial
-theorem hover_payee_found_partial : type_of% @HL.Props.C20Hover.payee_found_partial := @HL.Props.C20Hover.payee_found_partial
+theorem hover_payee_found : type_of% @HL.Props.C20Hover.payee_found := @HL.Props.C20Hover.payee_found
 theorem hover_shown_decimal_exact : type_of% @HL.Props.C20Hover.shown_decimal_exact := @HL.Props.C20Hover.shown_decimal_exact
 theorem hover_account_hover_judged : type_of% @HL.Props.C20Hover.account_hover_judged := @HL.Props.C20Hover.account_hover_judged
 theorem hover_count_hovers_judged : type_of% @HL.Props.C20Hover.count_hovers_judged := @HL.Props.C20Hover.count_hovers_judged
@@ -726,6 +763,6 @@ theorem hover_current_file_in_scope : type_of% @HL.Props.C20Hover.current_file_i
 theorem hover_current_file_counted : type_of% @HL.Props.C20Hover.current_file_counted := @HL.Props.C20Hover.current_file_counted
 theorem pinned_hover_orphan_file_counterexample : type_of% @HL.Props.C20Hover.pinned_orphan_file_counterexample := @HL.Props.C20Hover.pinned_orphan_file_counterexample
 theorem hover_unsaved_include_not_seen_counterexample : type_of% @HL.Props.C20Hover.unsaved_include_not_seen_counterexample := @HL.Props.C20Hover.unsaved_include_not_seen_counterexample
-theorem hover_payee_range_counterexample : type_of% @HL.Props.C20Hover.payee_range_counterexample := @HL.Props.C20Hover.payee_range_counterexample
+theorem pinned_hover_payee_range_counterexample : type_of% @HL.Props.C20Hover.pinned_payee_range_counterexample := @HL.Props.C20Hover.pinned_payee_range_counterexample
 theorem hover_txline_tags_dropped_counterexample : type_of% @HL.Props.C20Hover.txline_tags_dropped_counterexample := @HL.Props.C20Hover.txline_tags_dropped_counterexample
 end HL.Props.C20
